@@ -116,11 +116,13 @@ def fold_max_steps(m: Model):
             if has and (mx is None or mx <= 0):
                 continue        # HAS_STEP_LIMIT is only set for positive limits (checked separately)
             flag = Flag.HAS_STEP_LIMIT if has else Flag(0)
-            tab = Obj('tableau', flag=flag, history=[0] * steps, opts={'max_steps': mx})
-            try:
-                got = bool(it.safe(fn, [tab]))
-            except TypeError as e:
-                got = f'TypeError {e}'
-            want = has and steps >= mx
-            results.append((got == want, f'_is_max_steps_exceeded HAS_STEP_LIMIT={has} steps={steps} max_steps={mx}', f'{got} (want {want})'))
+            for nopen in (0, 2):
+                # the limit must not depend on anything but the flag and the number of recorded steps
+                tab = Obj('tableau', flag=flag, history=[0] * steps, opts={'max_steps': mx}, open=[object()] * nopen,
+                          argument='ARG', rules=[], timers=None)
+                r = it.safe(fn, [tab])
+                got = r if not isinstance(r, bool) else r
+                got = bool(r) if not hasattr(r, 'text') else r
+                want = has and steps >= mx
+                results.append((got == want, f'_is_max_steps_exceeded HAS_STEP_LIMIT={has} steps={steps} max_steps={mx} open={nopen}', f'{got} (want {want})'))
     return results, [m.loc(TAB, fn) + ' Tableau._is_max_steps_exceeded']
